@@ -175,6 +175,15 @@ def ballname(dim, base):
     return base + ("_circle" if dim == 2 else "_sphere")
 
 
+def ctor_args(sh):
+    """constructor arguments reproducing the shape (fresh object, same vertices / faces)"""
+    if type(sh).__name__ == "Polyhedron":
+        return (np.array(sh.vertices), [np.array(f) for f in sh.faces])
+    if type(sh).__name__ in ("Polygon", "ConvexPolygon"):
+        return (np.array(sh.vertices), np.array(sh.normal))
+    return (np.array(sh.vertices),)
+
+
 def judge_vertex_shape(chk, it, rcirc):
     sh, V, dim = it["sh"], it["V"], it["dim"]
     size = float(np.max(np.linalg.norm(V - V.mean(0), axis=1)))
@@ -190,11 +199,25 @@ def judge_vertex_shape(chk, it, rcirc):
     else:
         c, r = np.array(b.center, float), float(b.radius)
         ok, why = miniball_certificate(V, c, r)
-        if not ok:
-            chk.violation(name, dict(desc, center=c.tolist(), radius=r, why=why))
+        rg = float(getattr(sh, name + "_radius"))
         # (miniball is randomised: a second evaluation may differ in the last digits)
-        if abs(getattr(sh, name + "_radius") - r) > 1e-8 * r:
-            chk.violation(name + "_radius", dict(desc, getter=float(getattr(sh, name + "_radius")), ball=r))
+        ok_getter = abs(rg - r) <= 1e-8 * r
+        if not ok or not ok_getter:
+            # recorded known finding: the third-party randomised solver occasionally returns a non-minimal / non-enclosing ball for an
+            # input on which a re-evaluation returns the minimal one.  Attributed to it only if a fresh evaluation of the SAME input
+            # passes the exact certificate; a ball that is wrong every time is a violation.
+            redo = []
+            for _ in range(6):
+                st2, b2 = C.excname(lambda: getattr(type(sh)(*ctor_args(sh)), name))
+                if st2 == "ok":
+                    redo.append(miniball_certificate(V, np.array(b2.center, float), float(b2.radius))[0])
+            if chk.is_known("miniball-randomised-solver") and any(redo):
+                chk.known_finding("miniball-randomised-solver", "minimal bounding sphere/circle: the randomised third-party miniball solver occasionally returns a ball that is not minimal (or not enclosing) for an input on which a re-evaluation is right")
+                chk.count("known:miniball")
+            elif not ok:
+                chk.violation(name, dict(desc, center=c.tolist(), radius=r, why=why, reevaluations_passing=int(sum(redo))))
+            else:
+                chk.violation(name + "_radius", dict(desc, getter=rg, ball=r))
         if dim == 2:
             nrm = np.array(sh.normal)
             if abs(nrm @ (c - V[0])) > 1e-7 * size:
@@ -206,7 +229,9 @@ def judge_vertex_shape(chk, it, rcirc):
     if solv:
         x = np.array([C.fl(t) for t in rcirc[1:4]]); res2 = C.fl(rcirc[4])
         rel = res2 / (size ** 4 + 1e-300)
-        exists = True if rel < 1e-20 else (False if rel > 1e-8 else None)
+        # the implementation accepts a relative residual up to 1e-8 of (largest axis extent)^4 ~ 16 size^4: between 'exact' and ten times
+        # that tolerance the verdict is the implementation's to make (near-cyclic shapes), beyond it no circum-ball exists
+        exists = True if rel < 1e-20 else (False if rel > 2e-6 else None)
     st, b = C.excname(lambda: getattr(sh, name))
     if exists is True:
         if st != "ok":
